@@ -270,7 +270,7 @@ func (fs *FS) Rename(oldname, newname string) error {
 	linkErr := func(err error) error {
 		return &hackpadfs.LinkError{Op: "rename", Old: oldname, New: newname, Err: err}
 	}
-	if oldname == "." {
+	if oldname == "." || !hackpadfs.ValidPath(oldname) || !hackpadfs.ValidPath(newname) {
 		return linkErr(hackpadfs.ErrInvalid)
 	}
 	oldFile, oldErr := fs.getFile(oldname)
